@@ -130,6 +130,10 @@ func runC15(c *Ctx) {
 			cl, ok := n.(*ast.CallExpr)
 			return ok && exprKey(cl.Fun) == "target.Hook"
 		})
+		// the link field itself, or the value loaded from it when it is an atomic pointer
+		isLinkKey := func(k string) bool {
+			return strings.HasSuffix(k, ".link") || strings.HasSuffix(k, ".link.Load()")
+		}
 		// Unhook of the current link, however the link value travels (a temporary, the result of a
 		// swap helper): the receiver resolves to the link field
 		unhooks := map[*ast.CallExpr]bool{}
@@ -137,7 +141,7 @@ func runC15(c *Ctx) {
 			se, ok := ast.Unparen(c.Fun).(*ast.SelectorExpr)
 			return ok && se.Sel.Name == "Unhook" && len(c.Args) == 0
 		}) {
-			if cpt, found := f.PointOf(c); found && strings.HasSuffix(f.KeyAt(ast.Unparen(c.Fun).(*ast.SelectorExpr).X, cpt), ".link") {
+			if cpt, found := f.PointOf(c); found && isLinkKey(f.KeyAt(ast.Unparen(c.Fun).(*ast.SelectorExpr).X, cpt)) {
 				unhooks[c] = true
 			}
 		}
@@ -146,9 +150,27 @@ func runC15(c *Ctx) {
 			return ok && unhooks[cl]
 		}
 		hadLink := f.RelEdgesAt(func(rel Rel) bool {
-			return rel.Op == "!=" && (strings.HasSuffix(rel.L, ".link") && rel.R == "nil" || strings.HasSuffix(rel.R, ".link") && rel.L == "nil")
+			return rel.Op == "!=" && (isLinkKey(rel.L) && rel.R == "nil" || isLinkKey(rel.R) && rel.L == "nil")
 		})
 		bad := len(hooks) != 1 || len(hadLink) == 0
+		// ... and the hook is not created at all before the link was either found nil or unhooked (a
+		// test of the link that only comes after the hook does not help)
+		noLink := f.RelEdgesAt(func(rel Rel) bool {
+			return rel.Op == "==" && (isLinkKey(rel.L) && rel.R == "nil" || isLinkKey(rel.R) && rel.L == "nil")
+		})
+		isNoLink := func(e Edge) bool {
+			for _, n := range noLink {
+				if n == e {
+					return true
+				}
+			}
+			return false
+		}
+		for _, h := range hooks {
+			if _, found := f.PathFromEntryAvoiding(h, isUnhook, isNoLink); found {
+				bad = true
+			}
+		}
 		for _, e := range hadLink {
 			for _, h := range hooks {
 				if _, found := f.reach(Point{e.From.Succs[e.Succ], 0}, &searchOpts{AvoidNode: isUnhook}, func(pt Point, atExit bool) bool { return !atExit && f.At(pt, h) }); found {
